@@ -348,6 +348,7 @@ theorem produce_ok {H : Nat → Option Handler} {st : St} {m : ModuleSpec} {call
   · rename_i hd hH
     split at h
     · cases h
+    · cases h
     · rename_i raw hraw
       split at h
       · cases h
@@ -364,6 +365,7 @@ theorem produce_err {H : Nat → Option Handler} {st : St} {m : ModuleSpec} {cal
     calls = st.calls ++ [⟨m.name, st.minputs m.name⟩] ∧
     ∃ hd, H m.name = some hd ∧
       ((e = .handlerRaised ∧ hd (st.minputs m.name) = .raise) ∨
+       (e = .attributeError ∧ hd (st.minputs m.name) = .nondict) ∨
        (e.isWiringError = true ∧ ∃ raw, hd (st.minputs m.name) = .ret raw)) := by
   unfold produce at h
   split at h
@@ -373,14 +375,17 @@ theorem produce_err {H : Nat → Option Handler} {st : St} {m : ModuleSpec} {cal
     · rename_i hr
       cases h
       exact ⟨rfl, hd, hH, Or.inl ⟨rfl, hr⟩⟩
+    · rename_i hr
+      cases h
+      exact ⟨rfl, hd, hH, Or.inr (Or.inl ⟨rfl, hr⟩)⟩
     · rename_i raw hraw
       split at h
       · cases h
-        exact ⟨rfl, hd, hH, Or.inr ⟨rfl, raw, hraw⟩⟩
+        exact ⟨rfl, hd, hH, Or.inr (Or.inr ⟨rfl, raw, hraw⟩)⟩
       · split at h
         · rename_i e' he'
           cases h
-          exact ⟨rfl, hd, hH, Or.inr ⟨coerceOutputs_err he', raw, hraw⟩⟩
+          exact ⟨rfl, hd, hH, Or.inr (Or.inr ⟨coerceOutputs_err he', raw, hraw⟩)⟩
         · cases h
 
 /-- a mislabelled return value makes `produce` fail (with a WiringError, by `produce_err`) -/
@@ -396,7 +401,8 @@ theorem produce_mislabelled {d : Diagram} {H : Nat → Option Handler} {st : St}
     refine ⟨calls, e, rfl, ?_⟩
     obtain ⟨-, hd, hH', hcase⟩ := produce_err hp
     rw [hH] at hH'; cases hH'
-    rcases hcase with ⟨-, hr⟩ | ⟨hw, -⟩
+    rcases hcase with ⟨-, hr⟩ | ⟨-, hr⟩ | ⟨hw, -⟩
+    · rw [hret] at hr; cases hr
     · rw [hret] at hr; cases hr
     · exact hw
   | ok res =>
@@ -760,7 +766,11 @@ theorem runModule_fail {d : Diagram} {H : Nat → Option Handler} {enforce : Boo
     rcases hc with hc | hc
     · exact absurd hbad (hnobad c hc)
     · subst hc
-      rcases hcase with ⟨-, hr⟩ | ⟨hw, -⟩
+      rcases hcase with ⟨-, hr⟩ | ⟨-, hr⟩ | ⟨hw, -⟩
+      · obtain ⟨m', h', raw, pp, t, -, hH', hret, -⟩ := hbad
+        simp only at hH' hret
+        rw [hH] at hH'; cases hH'
+        rw [hr] at hret; cases hret
       · obtain ⟨m', h', raw, pp, t, -, hH', hret, -⟩ := hbad
         simp only at hH' hret
         rw [hH] at hH'; cases hH'
@@ -893,7 +903,8 @@ theorem loop_fail {d : Diagram} {H : Nat → Option Handler} {enforce : Bool} {G
 def ErrClass (d : Diagram) (H : Nat → Option Handler) (e : Err) : Prop :=
   e.isWiringError = true ∨
   (e = .handlerRaised ∧ ∃ n hd ins, H n = some hd ∧ hd ins = .raise) ∨
-  (e = .keyError ∧ ¬ d.WiresExist)
+  (e = .keyError ∧ ¬ d.WiresExist) ∨
+  (e = .attributeError ∧ ∃ n hd ins, H n = some hd ∧ hd ins = .nondict)
 
 theorem runModule_records {d : Diagram} {H : Nat → Option Handler} {enforce : Bool} {st st' : St}
     {m : ModuleSpec} (h : runModule d H enforce st m = .ok st') : st'.order = st.order ++ [m.name] := by
@@ -912,13 +923,14 @@ theorem runModule_errClass {d : Diagram} {H : Nat → Option Handler} {enforce :
   · rename_i f hp
     cases h
     obtain ⟨-, hd, hH, hcase⟩ := produce_err hp
-    rcases hcase with ⟨he, hr⟩ | ⟨hw, -⟩
+    rcases hcase with ⟨he, hr⟩ | ⟨he, hr⟩ | ⟨hw, -⟩
     · exact Or.inr (Or.inl ⟨he, m.name, hd, _, hH, hr⟩)
+    · exact Or.inr (Or.inr (Or.inr ⟨he, m.name, hd, _, hH, hr⟩))
     · exact Or.inl hw
   · obtain ⟨-, hk⟩ := deliver_err h
     rcases hk with hk | ⟨he, w, hw, hn⟩
     · exact Or.inl hk
-    · refine Or.inr (Or.inr ⟨he, fun hex => ?_⟩)
+    · refine Or.inr (Or.inr (Or.inl ⟨he, fun hex => ?_⟩))
       have hw' : w ∈ d.wires := by
         simp only [Diagram.outgoing, List.mem_filter] at hw; exact hw.1
       have := (hex w hw').2
@@ -1132,7 +1144,7 @@ theorem execute_errClass {d : Diagram} {H : Nat → Option Handler} {ext : List 
       simp only [Except.error.injEq] at h; subst h
       rcases preflight_some he' with hw | hk
       · exact Or.inl hw
-      · exact Or.inr (Or.inr hk)
+      · exact Or.inr (Or.inr (Or.inl hk))
     · split at h
       · rename_i calls e' hl
         simp only [Except.error.injEq] at h; subst h
